@@ -133,6 +133,9 @@ package router
 
 //@ func (b *broker) syncPubMeta
 //@   inline
+//@   nosweep
+
+//@ pred metaEventFor(e *wamp.Event, ms *subscription, pubID wamp.ID, sendTopic bool, topic wamp.URI) = e != nil && e.Subscription == ms.id && e.Publication == pubID && e.Details != nil && (sendTopic ==> "topic" in e.Details && e.Details["topic"] == box(topic)) && (!sendTopic ==> !("topic" in e.Details))
 
 //@ func (b *broker) syncPubSubMeta
 //@   nonblocking
@@ -140,6 +143,14 @@ package router
 //@   props C18
 //@   requires brokerInv(b)
 //@   modifies ghost sendcount
+//@   callsite trySend : [meta-event-to-a-subscriber-other-than-the-causing-session] arg1 in metaSub.subscribers && arg1.ID != subSessID
+//@   callsite trySend : [meta-event-for-that-subscription] is(arg2, *wamp.Event) && metaEventFor(arg2.(*wamp.Event), metaSub, pubID, sendTopic, metaTopic)
+
+//@ closure (b *broker) syncPubSubMeta 1
+//@   inline
+//@   nosweep
+//@   loop range metaSub.subscribers
+//@     invariant [shared-event-is-for-this-subscription] event == nil || metaEventFor(event, metaSub, pubID, sendTopic, metaTopic)
 
 //@ func (b *broker) syncPubSubCreateMeta
 //@   nonblocking
@@ -147,6 +158,14 @@ package router
 //@   props C18
 //@   requires brokerInv(b) && sub != nil
 //@   modifies ghost sendcount
+//@   callsite trySend : [meta-event-to-a-subscriber-other-than-the-causing-session] arg1 in metaSub.subscribers && arg1.ID != subSessID
+//@   callsite trySend : [meta-event-for-that-subscription] is(arg2, *wamp.Event) && metaEventFor(arg2.(*wamp.Event), metaSub, pubID, sendTopic, wamp.MetaEventSubOnCreate)
+
+//@ closure (b *broker) syncPubSubCreateMeta 1
+//@   inline
+//@   nosweep
+//@   loop range metaSub.subscribers
+//@     invariant [shared-event-is-for-this-subscription] event == nil || metaEventFor(event, metaSub, pubID, sendTopic, wamp.MetaEventSubOnCreate)
 
 // ---------------------------------------------------------------------------
 // Broker: session index and ownership
@@ -889,7 +908,9 @@ package router
 //@ closure (d *dealer) cancel 1
 //@   on dealer
 //@   props C13
-//@   captures caller != nil && !isnil(caller.Peer) && msg != nil
+//@   captures [caller] caller != nil
+//@   captures [peer] !isnil(caller.Peer)
+//@   captures [msg] msg != nil
 //@   requires dealerNN(d) && callsInv(d)
 //@   callsite syncCancel : [pass-through] arg0 == d && arg1 == caller && arg2 == msg && arg3 == mode && arg4 == wamp.ErrCanceled && len(arg5) == 0
 
@@ -939,7 +960,9 @@ package router
 //@   dyncalls-pure
 //@   on dealer
 //@   props C13 C02
-//@   captures caller != nil && !isnil(caller.Peer) && msg != nil
+//@   captures [caller] caller != nil
+//@   captures [peer] !isnil(caller.Peer)
+//@   captures [msg] msg != nil
 //@   requires dealerNN(d) && callsInv(d)
 //@   callsite syncCancel : [timeout-is-killnowait-with-timeout-error] arg0 == d && arg1 == caller && arg2.Request == msg.Request && arg3 == wamp.CancelModeKillNoWait && arg4 == wamp.ErrTimeout && len(arg5) == 1
 
@@ -999,6 +1022,8 @@ package router
 //@   callsite cancel : [gate] arg1 == sess && (isnil(r.authorizer) || sess == r.metaSess || authzAllowed(r, sess, box(arg2)))
 //@   callsite yield : [gate] arg1 == sess && (isnil(r.authorizer) || sess == r.metaSess || authzAllowed(r, sess, box(arg2)))
 //@   callsite error : [gate] arg1 == sess && (isnil(r.authorizer) || sess == r.metaSess || authzAllowed(r, sess, box(arg2))) && arg2.Type == wamp.INVOCATION
+//@   returnsite : [client-initiated-leave-only-if-allowed] (!result0 && !result1 && isnil(result2) && open) ==> (isnil(r.authorizer) || sess == r.metaSess || authzAllowed(r, sess, box(msg)))
+//@   sendsite reply wamp.Message : [goodbye-answered-only-if-allowed] (is(m, *wamp.Goodbye) && open) ==> (isnil(r.authorizer) || sess == r.metaSess || authzAllowed(r, sess, box(msg)))
 //@   callsite publish : [routed-to-own-realm] arg0 == r.broker
 //@   callsite call : [routed-to-own-realm] arg0 == r.dealer
 
@@ -1096,3 +1121,147 @@ package router
 //@   captures r != nil && sess != nil && !isnil(sess.Peer)
 //@   partial
 //@   callsite onLeave : [leave-with-the-handlers-verdict] arg1 == sess && arg2 == shutdown && arg3 == killAll
+
+// ---------------------------------------------------------------------------
+// Meta procedures that read broker / dealer state (run as actions on the
+// owning goroutine, where the component invariant holds between actions)
+
+//@ chaninv func() : v != nil
+//@ mapinv map[wamp.ID]*wamp.Session : v != nil
+
+//@ closure (b *broker) subList 1
+//@   on broker
+//@   props C18 C04
+//@   requires brokerInv(b)
+
+//@ closure (b *broker) subLookup 1
+//@   on broker
+//@   props C18 C04
+//@   requires brokerInv(b)
+//@   returnsite : [id-of-the-entry-for-topic-and-policy] topic in subTable(b, match) ==> subID == subTable(b, match)[topic].id && subID in b.subscriptions
+
+//@ closure (b *broker) subMatch 1
+//@   on broker
+//@   props C18 C04
+//@   requires brokerInv(b)
+
+//@ closure (b *broker) subGet 1
+//@   on broker
+//@   props C18 C04
+//@   requires brokerInv(b)
+//@   returnsite : [details-of-the-subscription] subID in b.subscriptions ==> dict != nil && dict["id"] == box(subID) && dict["uri"] == box(b.subscriptions[subID].topic) && dict["match"] == box(b.subscriptions[subID].match) && dict["created"] == box(b.subscriptions[subID].created)
+
+//@ closure (b *broker) subListSubscribers 1
+//@   on broker
+//@   props C18 C04
+//@   requires brokerInv(b)
+//@   returnsite : [one-entry-per-subscriber] subID in b.subscriptions ==> len(subscriberIDs) == len(b.subscriptions[subID].subscribers)
+
+//@ closure (b *broker) subCountSubscribers 1
+//@   on broker
+//@   props C18 C04
+//@   requires brokerInv(b)
+//@   returnsite : [count-is-the-number-of-subscribers] subID in b.subscriptions ==> count == len(b.subscriptions[subID].subscribers)
+//@   returnsite : [unknown-subscription-flagged] !(subID in b.subscriptions) ==> !ok
+
+//@ closure (d *dealer) regList 1
+//@   on dealer
+//@   props C18 C04
+//@   requires dealerInv(d)
+
+//@ closure (d *dealer) regLookup 1
+//@   on dealer
+//@   props C18 C04
+//@   requires dealerInv(d)
+//@   sendsite answer wamp.ID : [id-of-the-entry-for-procedure-and-policy] (procedure in regTable(d, match) ==> m == regTable(d, match)[procedure].id && m in d.registrations) && (!(procedure in regTable(d, match)) ==> m == 0)
+
+//@ closure (d *dealer) regGet 1
+//@   on dealer
+//@   props C18 C04
+//@   requires dealerInv(d)
+//@   returnsite : [details-of-the-registration] regID in d.registrations ==> dict != nil && dict["id"] == box(regID) && dict["uri"] == box(d.registrations[regID].procedure) && dict["match"] == box(d.registrations[regID].match) && dict["invoke"] == box(d.registrations[regID].policy)
+
+//@ closure (d *dealer) regListCallees 1
+//@   on dealer
+//@   props C18 C04
+//@   requires dealerInv(d)
+//@   returnsite : [one-entry-per-callee] regID in d.registrations ==> len(calleeIDs) == len(d.registrations[regID].callees) && calleeIDs != nil
+//@   loop range reg.callees
+//@     invariant [filled] forall k mathint :: 0 <= k && k <= rangeindex ==> calleeIDs[k] == d.registrations[regID].callees[k].ID
+
+//@ closure (d *dealer) regCountCallees 1
+//@   on dealer
+//@   props C18 C04
+//@   requires dealerInv(d)
+//@   returnsite : [count-is-the-number-of-callees] regID in d.registrations ==> count == len(d.registrations[regID].callees)
+//@   returnsite : [unknown-registration-flagged] !(regID in d.registrations) ==> !ok
+
+// ---------------------------------------------------------------------------
+// Realm plumbing needed by the safety sweep (C04)
+
+//@ fieldinv realm.metaPeer : !isnil(v)
+//@ fieldinv realm.metaSess : v != nil
+//@ mapinv map[wamp.ID]func(*wamp.Invocation) wamp.Message : v != nil
+
+// Built per call: a GOODBYE handed to a session of one realm is never an
+// object that another realm can see or change.
+//@ func makeGoodbye
+//@   props C04 C11
+//@   modifies nothing
+//@   ensures [goodbye-with-details] result != nil && fresh(result) && result.Details != nil && fresh(result.Details)
+
+//@ func makeError
+//@   props C04
+//@   modifies nothing
+//@   ensures [error-message] result != nil && fresh(result)
+
+// Meta procedures are registered while the realm is being built; a failure to
+// register is a deliberate start-up panic, not something a client can cause.
+//@ func (r *realm) registerMetaProcedure
+//@   props C04
+//@   requires r != nil && f != nil
+//@   maypanic
+//@   recvsite wamp.Message : [meta-client-registration-answers] assume isnil(m) || (is(m, *wamp.Registered) ==> m.(*wamp.Registered) != nil) && (is(m, *wamp.Error) ==> m.(*wamp.Error) != nil)
+
+// The meta client only ever receives INVOCATIONs of the meta procedures it
+// registered and the realm's final GOODBYE: the meta session announces no
+// callee features (no INTERRUPT), never calls, subscribes or asks for
+// acknowledgement.
+//@ func (r *realm) metaProcedureHandler
+//@   props C04
+//@   requires r != nil
+//@   recvsite wamp.Message : [meta-client-receives-invocations-or-goodbye] assume (is(m, *wamp.Invocation) && m.(*wamp.Invocation) != nil) || is(m, *wamp.Goodbye)
+
+// Sessions stored in the realm's client table were attached by AttachClient,
+// which gives each of them a details dictionary before handing it over.
+//@ func (r *realm) modifySessionDetails
+//@   props C04
+//@   requires r != nil && sess != nil
+//@   assume [attached-sessions-have-details] sess.Details != nil
+
+//@ func (r *router) Attach
+//@   props C04
+//@   requires r != nil && !isnil(client)
+
+//@ func (r *router) AddRealm
+//@   props C04
+//@   requires r != nil && config != nil
+
+//@ closure (r *router) AddRealm 1
+//@   on router
+//@   props C04
+//@   captures r != nil && config != nil
+
+//@ closure (r *realm) createMetaSession 1
+//@   props C04
+//@   captures r != nil
+
+//@ closure (d *dealer) syncCall 1
+//@   props C04 C13
+//@   captures d != nil && !isnil(timerCtx) && caller != nil && msg != nil
+
+//@ closure (d *dealer) regMatch 1
+//@   on dealer
+//@   props C18 C04
+//@   requires dealerInv(d)
+//@   sendsite answer wamp.ID : [id-of-the-best-match-or-zero] m == 0 || m in d.registrations
